@@ -150,9 +150,9 @@ Proof.
   unfold set_chunk_size. destruct (chunk_size_raises _ _); exact HN.
 Qed.
 
-Lemma G_block s : G s -> wt s = NoTask -> buf s = [] -> eof s = false -> G (set_wt s Waiting).
+Lemma G_block s : G s -> wt s = NoTask -> buf s = [] -> eof s = false -> wait_exc s = None -> G (set_wt s Waiting).
 Proof.
-  intros [HI [HW [N1 N2]]] _ Hb _. split; [apply Inv_wt; exact HI|].
+  intros [HI [HW [N1 N2]]] _ Hb _ _. split; [apply Inv_wt; exact HI|].
   split; [apply (W_same _ s); try reflexivity; exact HW|]. split; cbn [buf paused wt set_wt]; auto.
 Qed.
 
@@ -331,9 +331,64 @@ Proof.
   - intros n f r s Hs _ _. cbv zeta. destruct (marks_consume n f r s) as [A [B [C D]]].
     destruct (resume_cond _); apply (W_same _ s); cbn [low high lowc highc set_paused]; assumption.
   - intros; apply W_marks; assumption.
-  - intros s Hs _ _ _. apply (W_same _ s); try reflexivity; exact Hs.
+  - intros s Hs _ _ _ _. apply (W_same _ s); try reflexivity; exact Hs.
   - intros s Hs. apply (W_same _ s); try reflexivity; exact Hs.
   - intros s l1 l2 Hs _ _. apply (W_same _ s); try reflexivity; exact Hs.
   - intros d s Hs _. unfold unread. destruct d; [exact Hs|]. apply (W_same _ s); try reflexivity; exact Hs.
   - split; [apply W_init; intros _; exact H|reflexivity].
 Qed.
+
+(* ---- a reader never stays suspended on a pending waiter once an exception is set --------------
+   (repair 497a2a6: _wait raises a pending exception before it creates the waiter; set_exception
+   fails the waiter if there is one) *)
+Definition NE (s : st) : Prop := wt s = Waiting -> exc s = None.
+
+Lemma NE_feed d s : NE s -> NE (fst (feed_data d s)).
+Proof.
+  unfold NE. intros H. unfold feed_data. destruct (eof s); [exact H|]. destruct d as [|x d]; [exact H|].
+  cbn [fst]. unfold wake_ok. cbn [wt].
+  destruct (wt s) eqn:Ew; cbn [size high set_wt];
+    match goal with |- context [if ?c then _ else _] => destruct c end;
+    cbn [wt exc do_pause set_paused set_wt]; intros E; try discriminate; auto.
+Qed.
+
+Lemma NE_end s : NE s -> NE (fst (end_chunk s)).
+Proof.
+  unfold NE. intros H. unfold end_chunk. destruct (splits s); [|exact H]. destruct (empty_chunk _ _); [exact H|].
+  cbn [fst highc]. unfold wake_ok.
+  match goal with |- context [if ?c then _ else _] => destruct c end; unfold do_pause; cbn [wt set_paused];
+    destruct (wt s) eqn:Ew; cbn [wt exc set_wt set_paused]; intros E; try discriminate; auto.
+Qed.
+
+Theorem NE_run limit ops : NE (sst (fst (run ops (init_sys limit)))).
+Proof.
+  apply (run_SysP NE).
+  - intros; apply NE_feed; assumption.
+  - intros s Hs. unfold begin_chunk. destruct (splits s); [exact Hs|]. destruct (total s =? 0); exact Hs.
+  - intros; apply NE_end; assumption.
+  - intros s Hs. unfold NE, feed_eof. cbn [wt exc set_paused]. intros E. exfalso. exact (wake_ok_not_waiting _ E).
+  - intros e s Hs. unfold NE, set_exception, wake_exc. cbn [wt set_exc].
+    destruct (wt s) eqn:Ew; cbn [wt exc set_wt set_exc]; intros E; try discriminate; congruence.
+  - intros s v Hs. exact Hs.
+  - intros n f r s Hs Hw _. cbv zeta. pose proof (consume_wt n f r s) as E.
+    destruct (resume_cond _); unfold NE; cbn [wt set_paused]; rewrite E, Hw; discriminate.
+  - intros n s Hs. unfold set_chunk_size. destruct (chunk_size_raises _ _); exact Hs.
+  - intros s Hs _ _ _ Hx. unfold NE. cbn [wt exc set_wt]. intros _.
+    unfold wait_exc, wait_checks_exception in Hx. exact Hx.
+  - intros s Hs. unfold NE. cbn [wt set_wt]. discriminate.
+  - intros s l1 l2 Hs _ _. exact Hs.
+  - intros d s Hs Hw. unfold NE, unread. destruct d; [exact Hs|]. cbn [wt]. rewrite Hw. discriminate.
+  - split; [unfold NE; cbn; discriminate|reflexivity].
+Qed.
+
+(* so: if an exception is set, the reader task (if any) is either running/finished or already woken,
+   and its next loop turn completes the call *)
+Theorem exception_unblocks limit ops :
+  let y := fst (run ops (init_sys limit)) in
+  exc (sst y) <> None -> wt (sst y) <> Waiting.
+Proof. intros y Hx Hw. apply Hx. apply (NE_run limit ops). exact Hw. Qed.
+
+Theorem woken_reader_completes_on_exception y k e :
+  task y = Some k -> wt (sst y) = WokenExc e ->
+  snd (step ORun y) = ObDone (RRaise (ExStream e) (acc_of k)) /\ task (fst (step ORun y)) = None.
+Proof. intros Ht Hw. cbn [step]. rewrite Ht, Hw. split; reflexivity. Qed.
